@@ -261,13 +261,20 @@ pub fn run(tier: Tier) -> i32 {
     stats.sample(json!({"story": pairs[0].0}));
     stats.sample(json!({"stories": pairs.len()}));
     let exhaustive = done == pairs.len();
+    let mut caps_hit: Vec<String> = vec![];
+    if !exhaustive {
+        caps_hit.push(format!("wall cap {secs}s: {done}/{} pairs", pairs.len()));
+    }
+    if stats.get("stories_capped") > 0 {
+        caps_hit.push(format!("node cap reached for {} story(ies): their choice trees are complete below the deepest level explored only (breadth-first), see notes", stats.get("stories_capped")));
+    }
     let extra = vec![
         ("states", json!(stats.n_distinct("states").max(1))),
         ("transitions", json!(stats.get("transitions").max(1))),
         ("traces_validated_against_impl", json!(stats.get("traces"))),
         ("exhaustive", json!(exhaustive && stats.get("stories_capped") == 0)),
         ("bounds", json!({"pairs": pairs.len(), "pairs_done": done, "depth_ops": depth, "node_cap": cap, "node_cap_large_stories": big_cap, "stories_complete_to_depth": stats.get("stories_complete_to_depth"), "stories_capped": stats.get("stories_capped")})),
-        ("caps_hit", json!(if exhaustive { vec![] } else { vec![format!("wall cap {secs}s: {done}/{} pairs", pairs.len())] })),
+        ("caps_hit", json!(caps_hit)),
         ("merged", json!(false)),
     ];
     finish(
